@@ -89,6 +89,16 @@ class ModelElement(ABC):
         if prop_name is not None:
             self.topo.graph_model.unset_node_property(node_id=self.node_id, prop_name=prop_name)
 
+    def _write_properties(self, prop_dict, names):
+        """
+        Write a sliver property dictionary into the element's graph node. The dictionary of a
+        sliver always carries StitchNode (the boolean has no 'unset' value), so it is only
+        written when the caller actually named it - otherwise every set would reset it.
+        """
+        if 'stitch_node' not in names:
+            prop_dict.pop(ABCPropertyGraph.PROP_STITCH_NODE, None)
+        self.topo.graph_model.update_node_properties(node_id=self.node_id, props=prop_dict)
+
     def __repr__(self):
         labels, node_props = self.topo.graph_model.get_node_properties(node_id=self.node_id)
         # filter out some properties we don't need
